@@ -88,9 +88,16 @@ def check(ctx, rep, P, walked):
     fx = ctx.fx
     conf = load_confirmed()
     roots = sorted({fx.root_fn(f) for f in walked if f in fx.fns})
+    nh = getattr(fx, "new_helpers", set())
+    helper_calls = {}
+    for h in sorted(nh):
+        hc = lossy_calls(fx, h) + lossy_casts(fx, h)
+        for owner in fx.attributed(h):
+            helper_calls.setdefault(owner, []).extend(hc)
+    roots = [r for r in roots if r not in nh]
     n_sites = 0
     for fid in roots:
-        calls = lossy_calls(fx, fid) + lossy_casts(fx, fid)
+        calls = lossy_calls(fx, fid) + lossy_casts(fx, fid) + helper_calls.get(fid, [])
         if not calls:
             continue
         key = sig_key(fx, fid)
